@@ -11,7 +11,7 @@ Definition dec_ev (x : sx) : option mev :=
       else if a =? 4 then Some (EAttempt (AOk true)) else None
   | SL [SZ 1; SZ t] =>
       if t =? 0 then Some (ETerm TDrop) else if t =? 1 then Some (ETerm TClose)
-      else if t =? 2 then Some (ETerm TStop) else None
+      else if t =? 2 then Some (ETerm TStop) else if t =? 3 then Some (ETerm TStreamError) else None
   | _ => None
   end.
 
